@@ -234,12 +234,49 @@ func handlerName(e ast.Expr) (string, bool) {
 		}
 	case *ast.Ident:
 		return e.Name, true
-	case *ast.CallExpr: // hc.factory()  (returns the handler; the factory and its closures are walked)
-		if len(e.Args) == 0 {
-			return handlerName(e.Fun)
-		}
+	case *ast.CallExpr:
+		// hc.factory() / hc.factory(false): the call returns the handler.  The row is filed under the factory's name: the
+		// factory and the function literals in it are walked as that handler, for every value of its arguments at once
+		// (two routes may share one factory and differ only by the captured constants)
+		return handlerName(e.Fun)
 	}
 	return "", false
+}
+
+// returnedLiteral: the composite literal a niladic function / method of the package returns (`return []T{...}` as its only
+// return statement, or a literal bound once and returned)
+func (p *pkgInfo) returnedLiteral(call *ast.CallExpr) *ast.CompositeLit {
+	if len(call.Args) != 0 {
+		return nil
+	}
+	name, ok := handlerName(call.Fun)
+	if !ok || len(p.funcs[name]) != 1 {
+		return nil
+	}
+	fd := p.funcs[name][0]
+	if fd.Body == nil {
+		return nil
+	}
+	var rets []*ast.ReturnStmt
+	ast.Inspect(fd.Body, func(n ast.Node) bool {
+		if _, isLit := n.(*ast.FuncLit); isLit {
+			return false
+		}
+		if r, ok := n.(*ast.ReturnStmt); ok {
+			rets = append(rets, r)
+		}
+		return true
+	})
+	if len(rets) != 1 || len(rets[0].Results) != 1 {
+		return nil
+	}
+	switch x := rets[0].Results[0].(type) {
+	case *ast.CompositeLit:
+		return x
+	case *ast.Ident:
+		return p.literalOf(x.Name, fd)
+	}
+	return nil
 }
 
 // moduleQualifiedHandler: `alias.F` (or `alias.F()` returning the handler) where alias is an import of a package of this
@@ -368,6 +405,8 @@ func (p *pkgInfo) rangeBindings(rs *ast.RangeStmt, fd *ast.FuncDecl) (subs []map
 		cl = x
 	case *ast.Ident:
 		cl = p.literalOf(x.Name, fd)
+	case *ast.CallExpr: // for _, r := range hc.apiRoutes()
+		cl = p.returnedLiteral(x)
 	}
 	if cl == nil {
 		return nil, nil, false
